@@ -362,7 +362,8 @@ def run(ctx):
             det = json.load(f)["detail"]
         if det.get("world") not in D.WORLDS:
             raise tlcmod.MachineryError("replay file has no driver history (world=%r)" % det.get("world"))
-        ops = [{k: v for k, v in o.items() if k != "err"} for o in det["history"]]
+        ops = [dict(dict(keep=False, f=False, refused=False), **{k: v for k, v in o.items() if k != "err"})
+               for o in det["history"]]
         w = D.World(det["world"], seed=ctx.seed, ctx=ctx)
         evs, drv = D.replay_history(w, np.random.default_rng(det["seed"]), ops, max_held=2,
                                     perturb_nac=bool(det.get("perturb_nac")))
